@@ -4,10 +4,10 @@ package main
 
 import (
 	"fmt"
-	"sort"
 	"go/constant"
 	"go/token"
 	"go/types"
+	"sort"
 	"strings"
 
 	"golang.org/x/tools/go/ssa"
@@ -635,9 +635,9 @@ func nilTestsOn(fn *ssa.Function, v ssa.Value) []nilTest {
 			continue
 		}
 		var other ssa.Value
-		if bo.X == v {
+		if bo.X == v || forwardedLoad(bo.X) == v {
 			other = bo.Y
-		} else if bo.Y == v {
+		} else if bo.Y == v || forwardedLoad(bo.Y) == v {
 			other = bo.X
 		} else {
 			continue
@@ -1250,6 +1250,101 @@ func compositeAcct(f *ssa.Function) map[string]int {
 	return out
 }
 
+// condAcct is one accounting effect of a composite helper that chooses between effects by a bool parameter
+// (accountStored(counter, size, replacedSize, overwritten): -replacedSize if overwritten, else +1 entry; +size always).
+type condAcct struct {
+	sizeIdx    int  // parameter handed on as the size, -1 if the kind takes none
+	guardIdx   int  // bool parameter the effect depends on, -1 if it always happens
+	guardTruth bool // the effect happens when that parameter has this value
+}
+
+// compositeAcctCond: f does nothing but call accounting helpers with its own parameters, possibly choosing between
+// them by one of its bool parameters.
+func compositeAcctCond(f *ssa.Function) map[string]condAcct {
+	if f == nil || f.Blocks == nil || originPkgPath(f) != "reservoir/cache" || len(f.Blocks) < 2 || len(f.Blocks) > 6 || acctKind(f) != "" {
+		return nil
+	}
+	out := map[string]condAcct{}
+	ok := true
+	var ifs []*ssa.BasicBlock
+	for _, b := range f.Blocks {
+		for _, in := range b.Instrs {
+			switch x := in.(type) {
+			case *ssa.If:
+				cv, _ := stripNot(x.Cond)
+				prm, isP := cv.(*ssa.Parameter)
+				if !isP || !isBoolType(prm.Type()) {
+					ok = false
+				}
+				ifs = append(ifs, b)
+			case *ssa.Call:
+				if callAcctKind(x) == "" {
+					ok = false
+				}
+			case *ssa.Return, *ssa.DebugRef, *ssa.Jump:
+			default:
+				ok = false
+			}
+		}
+	}
+	if !ok || len(ifs) != 1 {
+		return nil
+	}
+	ib := ifs[0]
+	cv, positive := stripNot(ib.Instrs[len(ib.Instrs)-1].(*ssa.If).Cond)
+	gi := -1
+	for pi, q := range f.Params {
+		if ssa.Value(q) == cv {
+			gi = pi
+		}
+	}
+	for _, b := range f.Blocks {
+		for _, in := range b.Instrs {
+			x, isC := in.(*ssa.Call)
+			if !isC {
+				continue
+			}
+			k := callAcctKind(x)
+			ca := condAcct{sizeIdx: -1, guardIdx: -1}
+			if len(x.Call.Args) == 2 {
+				for pi, q := range f.Params {
+					if unconv(x.Call.Args[1]) == ssa.Value(q) {
+						ca.sizeIdx = pi
+					}
+				}
+				if ca.sizeIdx < 0 {
+					return nil
+				}
+			}
+			switch {
+			case onlyViaEdge(f, x, ib, 0):
+				ca.guardIdx, ca.guardTruth = gi, positive
+			case onlyViaEdge(f, x, ib, 1):
+				ca.guardIdx, ca.guardTruth = gi, !positive
+			}
+			if _, dup := out[k]; dup {
+				return nil
+			}
+			out[k] = ca
+		}
+	}
+	if len(out) == 0 {
+		return nil
+	}
+	return out
+}
+
+// acctGuardOfCall: for a call of a choosing composite helper, the argument that decides whether the effect of the
+// given kind happens, and the value it must have.
+func acctGuardOfCall(call *ssa.Call, kind string) (arg ssa.Value, truth bool, guarded bool) {
+	if sc := staticCallee(call); sc != nil {
+		if ca, ok := compositeAcctCond(unwrapSynthetic(sc))[kind]; ok && ca.guardIdx >= 0 && ca.guardIdx < len(call.Call.Args) {
+			return call.Call.Args[ca.guardIdx], ca.guardTruth, true
+		}
+	}
+	return nil, false, false
+}
+
 // acctKindsOfCall: the accounting effects of a call: one for a plain accounting helper, several for a composite one.
 func acctKindsOfCall(call ssa.CallInstruction) []string {
 	if k := callAcctKind(call); k != "" {
@@ -1259,6 +1354,11 @@ func acctKindsOfCall(call ssa.CallInstruction) []string {
 		var ks []string
 		for k := range compositeAcct(unwrapSynthetic(sc)) {
 			ks = append(ks, k)
+		}
+		if len(ks) == 0 {
+			for k := range compositeAcctCond(unwrapSynthetic(sc)) {
+				ks = append(ks, k)
+			}
 		}
 		sort.Strings(ks)
 		return ks
@@ -1277,6 +1377,9 @@ func acctSizeArg(call *ssa.Call, kind string) ssa.Value {
 	if sc := staticCallee(call); sc != nil {
 		if idx, ok := compositeAcct(unwrapSynthetic(sc))[kind]; ok && idx >= 0 && idx < len(call.Call.Args) {
 			return call.Call.Args[idx]
+		}
+		if ca, ok := compositeAcctCond(unwrapSynthetic(sc))[kind]; ok && ca.sizeIdx >= 0 && ca.sizeIdx < len(call.Call.Args) {
+			return call.Call.Args[ca.sizeIdx]
 		}
 	}
 	return nil
@@ -2348,4 +2451,71 @@ func returnsResultOf(call *ssa.Call, idx int) bool {
 		}
 	})
 	return found
+}
+
+// anchorSites: the instructions of the anchor function f that stand for instruction in of g, where g is f itself, a
+// function literal created (at any nesting) inside f — the literal takes effect where it is created and handed on —
+// or a helper f calls (transitively, bounded): the call sites in f.
+func anchorSites(li *LockInfo, f, g *ssa.Function, in ssa.Instruction, depth int) []ssa.Instruction {
+	if g == f {
+		return []ssa.Instruction{in}
+	}
+	if depth > 3 || g == nil {
+		return nil
+	}
+	var out []ssa.Instruction
+	if p := g.Parent(); p != nil {
+		eachInstr(p, func(i2 ssa.Instruction) {
+			if mc, ok := i2.(*ssa.MakeClosure); ok && mc.Fn == ssa.Value(g) {
+				// where the literal is used: the calls it is passed to (or the creation itself)
+				used := false
+				if refs := mc.Referrers(); refs != nil {
+					for _, ref := range *refs {
+						if call, isC := ref.(*ssa.Call); isC {
+							used = true
+							out = append(out, anchorSites(li, f, p, call, depth+1)...)
+						}
+					}
+				}
+				if !used {
+					out = append(out, anchorSites(li, f, p, mc, depth+1)...)
+				}
+			}
+		})
+		return out
+	}
+	for _, cs := range li.Callers[g] {
+		out = append(out, anchorSites(li, f, cs.in.Parent(), cs.in, depth+1)...)
+	}
+	return out
+}
+
+// forwardedLoad: x is a load of a local cell that was stored to earlier in the same block with no call in between
+// (`size, err = io.Copy(...); if err != nil` where err is a named result captured by a deferred literal): the value
+// stored. nil otherwise.
+func forwardedLoad(x ssa.Value) ssa.Value {
+	ld, ok := x.(*ssa.UnOp)
+	if !ok || ld.Op != token.MUL {
+		return nil
+	}
+	cell, ok := ld.X.(*ssa.Alloc)
+	if !ok {
+		return nil
+	}
+	b := ld.Block()
+	var val ssa.Value
+	for _, in := range b.Instrs {
+		if in == ssa.Instruction(ld) {
+			break
+		}
+		switch y := in.(type) {
+		case *ssa.Store:
+			if y.Addr == ssa.Value(cell) {
+				val = y.Val
+			}
+		case *ssa.Call, *ssa.Defer, *ssa.Go:
+			val = nil
+		}
+	}
+	return val
 }
